@@ -10,6 +10,12 @@ types, assume_specifications, spec functions, lemmas):
   //@fn <file> <impl anchor|-> <name> [ret=<ident>]
   //@| <clause text>                 (requires/ensures/decreases lines placed between signature and body)
   //@loop <ordinal> | <invariant text>   (invariant block for the n-th `while`/`for`/`loop` of that fn; 1-based)
+  //@loopvar <ordinal> <name>        (`for PAT in EXPR` of that loop becomes `for PAT in <name>: EXPR` - Verus' syntax for
+                                      naming the ghost iterator so that an invariant can mention its position)
+  //@ghost | <text>                  (ghost/proof line placed right after the opening brace of the body; erased code)
+
+Parameter patterns `In(pat): In<T>` (Bevy system input) are not accepted by the verus! macro; they are desugared the
+way Rust defines them: the parameter is named `verif_in` and `let In(pat) = verif_in;` becomes the first statement.
 
 Function bodies are copied byte-for-byte, then DROP rules (rustcut.DROP_MACROS, whole statements) are applied.
 Everything dropped is recorded in the sidecar returned by expand().
@@ -103,11 +109,27 @@ def _name_return(sig, ret):
     return sig[:arrow] + '-> (%s: %s)\n' % (ret, ty.strip()) + tail
 
 
-def _insert_loop_invariants(body, loops, fname):
-    if not loops:
+def _desugar_in_params(sig):
+    """`In(pat) : In<T>` parameter => `verif_in : In<T>` + `let In(pat) = verif_in;` (Rust's own desugaring)."""
+    lets = []
+    m = re.search(r'(?<![A-Za-z0-9_])In\s*\(', sig)
+    if not m:
+        return sig, lets
+    close = rc.match_close(sig, m.end() - 1, '(', ')')
+    rest = sig[close + 1:]
+    if not re.match(r'\s*:\s*In\s*<', rest):
+        return sig, lets
+    pat = sig[m.start():close + 1]
+    lets.append('        let %s = verif_in;' % pat)
+    return sig[:m.start()] + 'verif_in' + sig[close + 1:], lets
+
+
+def _insert_loop_invariants(body, loops, fname, loopvars=None):
+    loopvars = loopvars or {}
+    if not loops and not loopvars:
         return body
     # find loop heads at code level: `while`, `for`, `loop`
-    heads = []
+    heads, kinds = [], []
     rx = re.compile(r'(while|for|loop)\b')
     for j, d in rc.code_positions(body):
         if j > 0 and (body[j - 1].isalnum() or body[j - 1] == '_'):
@@ -127,6 +149,27 @@ def _insert_loop_invariants(body, loops, fname):
                     ob = k; break
             if ob is not None:
                 heads.append(ob)
+                kinds.append((m.group(1), j, ob))
+    for ordinal, nm in loopvars.items():
+        if ordinal < 1 or ordinal > len(kinds) or kinds[ordinal - 1][0] != 'for':
+            raise CutError('fn %s: loopvar ordinal %d is not a for loop' % (fname, ordinal))
+    # apply binder insertions from the back so that offsets stay valid
+    for ordinal in sorted(loopvars, reverse=True):
+        kw, j, ob = kinds[ordinal - 1]
+        mm = re.compile(r'\bin\b').search(body, j, ob)
+        # the `in` of the loop head: first ` in ` at paren depth 0 after the pattern
+        pd = 0; pos = None
+        for k, _ in rc.code_positions(body, j + 3, ob):
+            c = body[k]
+            if c in '([': pd += 1
+            elif c in ')]': pd -= 1
+            elif pd == 0 and body.startswith('in', k) and not (body[k - 1].isalnum() or body[k - 1] == '_') and not (body[k + 2].isalnum() or body[k + 2] == '_'):
+                pos = k; break
+        if pos is None:
+            raise CutError('fn %s: `in` of for loop %d not found' % (fname, ordinal))
+        ins = ' %s:' % loopvars[ordinal]
+        body = body[:pos + 2] + ins + body[pos + 2:]
+        heads = [h + len(ins) if h > pos else h for h in heads]
     out, last = [], 0
     for ordinal, text in sorted(loops.items()):
         if ordinal < 1 or ordinal > len(heads):
@@ -186,12 +229,18 @@ def expand(template_path, repo='/repo'):
                 toks = toks[:-1]
             name = toks[-1]
             anchor = ' '.join(toks[:-1])
-            clauses, loops = [], {}
-            while i + 1 < len(tpl) and (tpl[i + 1].strip().startswith('//@|') or tpl[i + 1].strip().startswith('//@loop')):
+            clauses, loops, loopvars, ghosts = [], {}, {}, []
+            while i + 1 < len(tpl) and (tpl[i + 1].strip().startswith('//@|') or tpl[i + 1].strip().startswith('//@loop')
+                                        or tpl[i + 1].strip().startswith('//@ghost')):
                 i += 1
                 t = tpl[i].strip()
                 if t.startswith('//@|'):
                     clauses.append('        ' + t[4:].strip())
+                elif t.startswith('//@ghost'):
+                    ghosts.append('        ' + t.split('|', 1)[1].strip())
+                elif t.startswith('//@loopvar'):
+                    _, o, nm = t.split()
+                    loopvars[int(o)] = nm
                 else:
                     mm = re.match(r'//@loop\s+(\d+)\s*\|(.*)$', t)
                     loops.setdefault(int(mm.group(1)), [])
@@ -218,7 +267,11 @@ def expand(template_path, repo='/repo'):
             if ret:
                 sig = _name_return(sig, ret)
             body, dropped = rc.drop_statements(fn['body'])
-            body = _insert_loop_invariants(body, loops, name)
+            body = _insert_loop_invariants(body, loops, name, loopvars)
+            sig, in_lets = _desugar_in_params(sig)
+            if in_lets or ghosts:
+                ob = body.index('{')
+                body = body[:ob + 1] + '\n' + '\n'.join(in_lets + ghosts) + body[ob + 1:]
             out.append('    ' + sig.rstrip() + '\n' + '\n'.join(clauses) + '\n    ' + body)
             a, b = fn['span']
             side['functions'].append({
